@@ -586,6 +586,35 @@ fn shape_batches<P: G>(cfg: Cfg) -> Box<dyn Case> {
             }
             members.push(row);
         }
+        // a member whose proof was made under another transcript context than the one it is presented with
+        {
+            let wit = Wit::default_for(&cfg);
+            let built = build_cached::<P>(&cfg, &wit).expect("valid");
+            let other_ctx = contexts()[4];
+            let made_under_a = lib_prove(&built, &CTX_A, &mut HRng::chacha(72)).expect("honest");
+            let honest_b = lib_prove(&built, &other_ctx, &mut HRng::chacha(73)).expect("honest");
+            for (name, first_proof, first_ctx, second_proof, second_ctx, expect) in [
+                ("[honest@A, made-under-A-presented-with-B]", &made_under_a, CTX_A, &made_under_a, other_ctx, false),
+                ("[honest@A, honest@B]", &made_under_a, CTX_A, &honest_b, other_ctx, true),
+                ("[honest@B, made-under-A-presented-with-B]", &honest_b, other_ctx, &made_under_a, other_ctx, false),
+            ] {
+                for mode in [VerifyAction::VerifyOnly, VerifyAction::RecoverAndVerify] {
+                    let sts = vec![built.statement.clone(), built.statement.clone()];
+                    let proofs = vec![P::proof_clone(first_proof), P::proof_clone(second_proof)];
+                    let mut ts = vec![first_ctx.transcript(), second_ctx.transcript()];
+                    let obs = verify_observed(&sts, &proofs, &mut ts, mode);
+                    res.executions += 1;
+                    res.validated += 1;
+                    *res.outcome_counter(if obs.is_ok() { "batch-accept" } else { "batch-reject" }) += 1;
+                    if obs.panic.is_some() || obs.is_ok() != expect {
+                        res.violate(
+                            format!("{}/{}", name, mode_name(mode)),
+                            format!("batch {} in {}: library says {} but each member's own transcript context decides: expected {}", name, mode_name(mode), obs.describe(), if expect { "accept" } else { "reject" }),
+                        );
+                    }
+                }
+            }
+        }
         for a in 0..kinds.len() {
             for b in 0..kinds.len() {
                 res.transitions += 1;
@@ -604,6 +633,38 @@ fn shape_batches<P: G>(cfg: Cfg) -> Box<dyn Case> {
                             format!("[{},{}]/{}", kinds[a].0, kinds[b].0, mode_name(mode)),
                             format!("batch [{}, {}] in {}: library says {} but the reference verdicts of the members are [{}, {}]", kinds[a].0, kinds[b].0, mode_name(mode), obs.describe(), oka, okb),
                         );
+                    }
+                }
+            }
+        }
+        res
+    })
+}
+
+/// Shape (g), over F: the adaptive attacker of C08 (three runs, otherwise valid members): no invalid batch may verify
+fn shape_adaptive_f(d: usize) -> Box<dyn Case> {
+    use crate::props::c08;
+    case(format!("freemodule/d={}/adaptive-cancellation", d), move |_v| {
+        fg::clear_intern();
+        let mut res = CaseResult::new("explored");
+        let batch: Vec<c08::Member> = (0..2).map(|p| c08::plain_member(p, 1, d)).collect();
+        for mode in [VerifyAction::VerifyOnly, VerifyAction::RecoverAndVerify] {
+            for (i, j) in [(0usize, 1usize), (1, 0)] {
+                for k in 0..d {
+                    res.transitions += 1;
+                    res.executions += 3;
+                    res.validated += 1;
+                    match c08::three_run_attack(&batch, i, j, k, mode, false) {
+                        Err(e) => res.violate(format!("{}/pair=({},{})/k={}/setup", mode_name(mode), i, j, k), e),
+                        Ok((accepted, _)) => {
+                            *res.outcome_counter(if accepted { "adaptive-accept" } else { "adaptive-reject" }) += 1;
+                            if accepted {
+                                res.violate(
+                                    format!("{}/pair=({},{})/k={}", mode_name(mode), i, j, k),
+                                    "two individually invalid proofs, with defects sized from factors observed on earlier runs, were accepted together",
+                                );
+                            }
+                        },
                     }
                 }
             }
@@ -644,6 +705,9 @@ pub fn run(rep: &mut Report) {
         if cfg.big_n() <= 64 {
             cases.push(shape_batches::<RistrettoPoint>(cfg));
         }
+    }
+    for d in [1usize, 2, 6] {
+        cases.push(shape_adaptive_f(d));
     }
     rep.explore("C02", cases);
     rep.expect_sub_outcome("lib-accept");
